@@ -47,7 +47,8 @@ class MSource(Model):
 
 class MMap(Model):
     def push(self, parent, x, md):
-        return [(freeze(fns.f1(tuple(self.spec['fn']), thaw(x))), md)]
+        n = self.spec
+        return [(freeze(fns.mapf(tuple(n['fn']), thaw(x), *tuple(n.get('args', ())), **dict(n.get('kwargs', {})))), md)]
 
 
 class MStarmap(Model):
